@@ -399,6 +399,14 @@ def judge_consumer(world, h, relaxed):
                               f't={dl}us), awaited from t={t_await}us: finished {_short(act)} at t={a["t"]}us - as if the lifetime had '
                               f'started when the caller began to await (deadline t={dl2}us)')
                 continue
+        if not ok03 and fe != 'v2' and late_possible and act[0] == 'canceled' \
+                and any(c_['t'] > dl + w_us for c_ in h.cancels.get(iid, [])):
+            # the legacy front-end's validator is still running after the deadline (known finding C05:late-validator) and the
+            # caller cancelled in that stretch: the same defect seen from the caller's side, not a new one
+            world.violate('C05', 'late-validator', comp, where,
+                          f'Interest {iid}: the validator was still running after the deadline (t={dl}us), so a cancellation at '
+                          f't={a["t"]}us ended the Interest instead of the timeout at the deadline')
+            continue
         if not ok03:
             rule = 'outcome'
             if act[0] == 'data' and not any(e[0] == 'data' for e in acc03):
